@@ -15,6 +15,7 @@ pub mod c12;
 pub mod c13;
 pub mod c14;
 pub mod c15;
+pub mod c16;
 
 use crate::ctx::Ctx;
 use crate::report::Report;
@@ -37,6 +38,7 @@ pub fn dispatch(ctx: &Ctx, rep: &mut Report) -> bool {
         "C13" => c13::run(ctx, rep),
         "C14" => c14::run(ctx, rep),
         "C15" => c15::run(ctx, rep),
+        "C16" => c16::run(ctx, rep),
         _ => return false,
     }
     true
